@@ -108,12 +108,15 @@ class Inst:
 
 
 def shortpath(p):
+    """path relative to the repository root (works for /repo and for scratch copies of it)"""
     if not p:
         return '?'
+    p = re.sub(r'/\./', '/', p)
     p = re.sub(r'^\./', '', p)
-    for pre in ('/repo/',):
-        if p.startswith(pre):
-            return p[len(pre):]
+    for seg in ('/src/', '/include/', '/witnesses/'):
+        k = p.find(seg)
+        if k >= 0:
+            return p[k + 1:]
     if not p.startswith('/') and '/' not in p:
         return 'src/' + p
     return p
